@@ -82,6 +82,7 @@ class Ctx:
             if hi is not None: ST.base.append(s < core.rv(hi))
             if nz: ST.base.append(s != 0)
             return SReal(s)
+        if name in self.symnames: return self.symnames[name]        # the same named input is the same value
         v = self._gen(name, pos, nonneg, lo, hi, nz)
         self.symnames[name] = v
         return v
